@@ -7,8 +7,15 @@ import Cellml.Model.Inv
     Core Lean only. Built on the C08 state model (`MState`): an `RModel` is a model state together with the
     right-hand side of every equation (by the equation's token: two equations with the same token are `==`, hence have
     the same right-hand side). Right-hand sides are arithmetic trees over numbers, variables and first-order
-    derivatives (+ - * / and integer powers, exact over `Rat`); anything else SymPy can hold is `opaque` (it has
-    references but no value here).
+    derivatives (+ - * / and integer powers, exact over `Rat`); anything else SymPy can hold (a function application:
+    `exp`, `log`, a trigonometric function, `Piecewise` …) is an UNINTERPRETED application `opq id args`: `id` names the
+    term (the harness sends the printed term), `args` are its argument places, one per variable / derivative the term
+    refers to - initially the reference itself (`Expr.ofWire`), later whatever `expand_derivatives` substitutes for it
+    (python's `xreplace` reaches inside a function application). Its value is given by an INTERPRETATION
+    `fn : Interp` (`fn id vals` = the float SymPy computes for the term `id` when its references have the values
+    `vals`; `none`: SymPy yields no finite float), a parameter of `evalE`, `getValueAux`, `getValue`, `roles`: the
+    theorems of `Props/C10.lean` hold for EVERY interpretation (as `Props/C02`, `Props/C05` treat transcendental
+    functions).
 
     `_get_value` is modelled as it stands after the two `fix:` commits recorded in findings/C10.json:
     derivatives on a right-hand side are first replaced, recursively, by the right-hand side of their ODE
@@ -27,17 +34,61 @@ inductive Expr
   | deriv (s t : Nat)
   | bin (op : BinOp) (a b : Expr)
   | pow (a : Expr) (n : Int)
-  | opq (refs : List Node)
+  | opq (id : String) (args : List Expr)
 deriving Repr, Inhabited
 
-/-- `find_variables_and_derivatives([rhs])`, as a list in traversal order -/
-def Expr.nodes : Expr → List Node
-  | .num _ => []
-  | .var v => [.var v]
-  | .deriv s t => [.deriv s t]
-  | .bin _ a b => a.nodes ++ b.nodes
-  | .pow a _ => a.nodes
-  | .opq r => r
+/-- a reference as an expression -/
+def nodeExpr : Node → Expr
+  | .var v => .var v
+  | .deriv s t => .deriv s t
+
+/-- an opaque sub-term as it comes from the wire (`(opq "id" node…)`): every argument place is the reference itself -/
+def Expr.ofWire (id : String) (refs : List Node) : Expr := .opq id (refs.map nodeExpr)
+
+/-- what an uninterpreted application evaluates to: `fn id vals` is the value of the opaque term `id` when its
+    argument places have the values `vals` (`none`: no finite float) -/
+abbrev Interp := String → List Rat → Option Rat
+
+/-- the interpretation that knows no function (what the compiled driver uses) -/
+def Interp.none : Interp := fun _ _ => Option.none
+
+mutual
+  /-- `find_variables_and_derivatives([rhs])`, as a list in traversal order -/
+  def Expr.nodes : Expr → List Node
+    | .num _ => []
+    | .var v => [.var v]
+    | .deriv s t => [.deriv s t]
+    | .bin _ a b => a.nodes ++ b.nodes
+    | .pow a _ => a.nodes
+    | .opq _ args => Expr.nodesL args
+  def Expr.nodesL : List Expr → List Node
+    | [] => []
+    | a :: as => a.nodes ++ Expr.nodesL as
+end
+
+/-- induction over expressions: for an opaque term the hypothesis holds of every argument place (the `induction`
+    tactic uses this principle: `Expr` is a nested inductive type) -/
+@[induction_eliminator]
+theorem Expr.induct {P : Expr → Prop} (num : ∀ q, P (.num q)) (var : ∀ v, P (.var v)) (deriv : ∀ s t, P (.deriv s t))
+    (bin : ∀ op a b, P a → P b → P (.bin op a b)) (pow : ∀ a n, P a → P (.pow a n))
+    (opq : ∀ id args, (∀ a ∈ args, P a) → P (.opq id args)) : ∀ e, P e :=
+  @Expr.rec P (fun l => ∀ a ∈ l, P a) num var deriv bin pow opq
+    (fun _ h => by cases h)
+    (fun _ _ hh ht a ha => by
+      rcases List.mem_cons.mp ha with rfl | ha
+      · exact hh
+      · exact ht a ha)
+
+theorem Expr.nodesL_eq (l : List Expr) : Expr.nodesL l = l.flatMap Expr.nodes := by
+  induction l with
+  | nil => rfl
+  | cons a as ih => simp [Expr.nodesL, ih]
+
+theorem Expr.nodes_ofWire (id : String) (refs : List Node) : (Expr.ofWire id refs).nodes = refs := by
+  simp only [Expr.ofWire, Expr.nodes, Expr.nodesL_eq]
+  induction refs with
+  | nil => rfl
+  | cons r rs ih => cases r <;> simp [nodeExpr, Expr.nodes, ih]
 
 /-- `rhs.atoms(Variable)` (the variables inside a derivative included) -/
 def Expr.vars (e : Expr) : List Nat := e.nodes.flatMap Node.atoms
@@ -53,24 +104,38 @@ def powInt (p : Rat) (n : Int) : Option Rat :=
   if 0 ≤ n then some (p ^ n.toNat) else if p = 0 then none else some ((p ^ n.natAbs)⁻¹)
 
 /-- why `get_value` raised: ValueError (no definition), TypeError (`float(None)`), RecursionError, a division by
-    zero (SymPy: `zoo`), something that is not arithmetic -/
+    zero (SymPy: `zoo`), an opaque term to which the interpretation gives no value (`unsupported`) -/
 inductive VErr | noDefinition | noInit | fuel | arith | unsupported | derivativeWrtNumber | floatHasNoAtoms
 deriving DecidableEq, Repr, Inhabited
 
-/-- replace every derivative by what `f` gives for it -/
-def Expr.bindD (f : Nat → Nat → Except VErr Expr) : Expr → Except VErr Expr
-  | .deriv s t => f s t
-  | .bin op a b =>
-    match a.bindD f, b.bindD f with
-    | .ok a', .ok b' => .ok (.bin op a' b')
-    | .error e, _ => .error e
-    | _, .error e => .error e
-  | .pow a n =>
-    match a.bindD f with
-    | .ok a' => .ok (.pow a' n)
-    | .error e => .error e
-  | .opq _ => .error .unsupported       -- not arithmetic: outside the model (the real code may well evaluate it)
-  | e => .ok e
+mutual
+  /-- replace every derivative by what `f` gives for it, also inside the argument places of an opaque term (first
+      error in traversal order) -/
+  def Expr.bindD (f : Nat → Nat → Except VErr Expr) : Expr → Except VErr Expr
+    | .deriv s t => f s t
+    | .bin op a b =>
+      match a.bindD f, b.bindD f with
+      | .ok a', .ok b' => .ok (.bin op a' b')
+      | .error e, _ => .error e
+      | _, .error e => .error e
+    | .pow a n =>
+      match a.bindD f with
+      | .ok a' => .ok (.pow a' n)
+      | .error e => .error e
+    | .opq id args =>
+      match Expr.bindDL f args with
+      | .ok args' => .ok (.opq id args')
+      | .error e => .error e
+    | .num q => .ok (.num q)
+    | .var v => .ok (.var v)
+  def Expr.bindDL (f : Nat → Nat → Except VErr Expr) : List Expr → Except VErr (List Expr)
+    | [] => .ok []
+    | a :: as =>
+      match a.bindD f, Expr.bindDL f as with
+      | .ok a', .ok as' => .ok (a' :: as')
+      | .error e, _ => .error e
+      | _, .error e => .error e
+end
 
 /-- a model state with the right-hand side of every equation (by token) -/
 structure RModel where
@@ -151,21 +216,34 @@ def expand (M : RModel) : Nat → Expr → Except VErr Expr
 /-- the `evaluated` dictionary -/
 abbrev Memo := List (Nat × Rat)
 
-/-- `float(expr.xreplace(evaluated))` -/
-def evalE (m : Memo) : Expr → Except VErr Rat
-  | .num q => .ok q
-  | .var v => match m.lookup v with | some q => .ok q | none => .error .noDefinition
-  | .deriv _ _ => .error .noDefinition
-  | .bin op a b =>
-    match evalE m a, evalE m b with
-    | .ok p, .ok q => (match applyBin op p q with | some r => .ok r | none => .error .arith)
-    | .error e, _ => .error e
-    | _, .error e => .error e
-  | .pow a n =>
-    match evalE m a with
-    | .ok p => (match powInt p n with | some r => .ok r | none => .error .arith)
-    | .error e => .error e
-  | .opq _ => .error .unsupported
+mutual
+  /-- `float(expr.xreplace(evaluated))` under the interpretation `fn` of the opaque terms (`fn … = none`: SymPy gives no
+      finite float there: `unsupported`) -/
+  def evalE (fn : Interp) (m : Memo) : Expr → Except VErr Rat
+    | .num q => .ok q
+    | .var v => match m.lookup v with | some q => .ok q | none => .error .noDefinition
+    | .deriv _ _ => .error .noDefinition
+    | .bin op a b =>
+      match evalE fn m a, evalE fn m b with
+      | .ok p, .ok q => (match applyBin op p q with | some r => .ok r | none => .error .arith)
+      | .error e, _ => .error e
+      | _, .error e => .error e
+    | .pow a n =>
+      match evalE fn m a with
+      | .ok p => (match powInt p n with | some r => .ok r | none => .error .arith)
+      | .error e => .error e
+    | .opq id args =>
+      match evalEL fn m args with
+      | .ok vals => (match fn id vals with | some r => .ok r | none => .error .unsupported)
+      | .error e => .error e
+  def evalEL (fn : Interp) (m : Memo) : List Expr → Except VErr (List Rat)
+    | [] => .ok []
+    | a :: as =>
+      match evalE fn m a, evalEL fn m as with
+      | .ok p, .ok ps => .ok (p :: ps)
+      | .error e, _ => .error e
+      | _, .error e => .error e
+end
 
 /-- `{x: x.initial_value for x in self._ode_definition_map}` and `evaluated[time] = 0`
     (a state without initial value is left out: its evaluation then fails with `noInit`) -/
@@ -186,7 +264,7 @@ def evalDeps (rec : Nat → Memo → Except VErr (Rat × Memo)) : List Nat → M
 
 /-- `_get_value(variable, evaluated)`; returns the value and the dictionary as the call leaves it.
     `F`: fuel for `expand`; the third argument: fuel for the recursion over variables. -/
-def getValueAux (M : RModel) (F : Nat) : Nat → Nat → Memo → Except VErr (Rat × Memo)
+def getValueAux (fn : Interp) (M : RModel) (F : Nat) : Nat → Nat → Memo → Except VErr (Rat × Memo)
   | 0, _, _ => .error .fuel
   | f + 1, v, m =>
     if isState M v then
@@ -199,17 +277,17 @@ def getValueAux (M : RModel) (F : Nat) : Nat → Nat → Memo → Except VErr (R
         match expand M F r with
         | .error e => .error e
         | .ok r' =>
-          match evalDeps (getValueAux M F f) r'.vars m with
+          match evalDeps (getValueAux fn M F f) r'.vars m with
           | .error e => .error e
           | .ok m' =>
-            match evalE m' r' with
+            match evalE fn m' r' with
             | .ok q => .ok (q, m')
             | .error e => .error e
 
 /-- `_get_value` as it was before the two `fix:` commits: no expansion of derivatives, so `xreplace` puts numbers
     inside the `Derivative` atom and SymPy raises `ValueError: Can't calculate derivative wrt 0`; and a right-hand side
     that is a bare variable comes back from `xreplace` as a Python float, on which `.atoms` raises `AttributeError` -/
-def getValueAuxToday (M : RModel) : Nat → Nat → Memo → Except VErr (Rat × Memo)
+def getValueAuxToday (fn : Interp) (M : RModel) : Nat → Nat → Memo → Except VErr (Rat × Memo)
   | 0, _, _ => .error .fuel
   | f + 1, v, m =>
     if isState M v then
@@ -219,29 +297,29 @@ def getValueAuxToday (M : RModel) : Nat → Nat → Memo → Except VErr (Rat ×
     else match varRhs M v with
       | none => if freeVar M = some v then .ok (0, m) else .error .noDefinition
       | some r =>
-        match evalDeps (getValueAuxToday M f) r.vars m with
+        match evalDeps (getValueAuxToday fn M f) r.vars m with
         | .error e => .error e
         | .ok m' =>
           if !r.nodes.all (fun n => match n with | .var _ => true | .deriv _ _ => false) then .error .derivativeWrtNumber
           else match r with
             | .var _ => .error .floatHasNoAtoms
-            | _ => match evalE m' r with
+            | _ => match evalE fn m' r with
               | .ok q => .ok (q, m')
               | .error e => .error e
 
-def getValueToday (M : RModel) (v : Nat) : Except VErr Rat :=
-  match getValueAuxToday M (M.st.live.length + 1) v (memo0 M) with
+def getValueToday (fn : Interp) (M : RModel) (v : Nat) : Except VErr Rat :=
+  match getValueAuxToday fn M (M.st.live.length + 1) v (memo0 M) with
   | .ok (q, _) => .ok q
   | .error e => .error e
 
-def getValueFuel (M : RModel) (F : Nat) (v : Nat) : Except VErr Rat :=
-  match getValueAux M F F v (memo0 M) with
+def getValueFuel (fn : Interp) (M : RModel) (F : Nat) (v : Nat) : Except VErr Rat :=
+  match getValueAux fn M F F v (memo0 M) with
   | .ok (q, _) => .ok q
   | .error e => .error e
 
 /-- `get_value(variable)`: `|variables| + 1` levels of recursion are enough for acyclic definitions
     (`Props/C10.lean: getValue_fuel`) -/
-def getValue (M : RModel) (v : Nat) : Except VErr Rat := getValueFuel M (M.st.live.length + 1) v
+def getValue (fn : Interp) (M : RModel) (v : Nat) : Except VErr Rat := getValueFuel fn M (M.st.live.length + 1) v
 
 /-- everything C10 is about: the answers of the role queries and of `get_value` -/
 structure Roles where
@@ -253,7 +331,7 @@ structure Roles where
   isConstant : Nat → Bool
   value : Nat → Except VErr Rat
 
-def roles (M : RModel) : Roles :=
-  ⟨stateVars M, freeVar M, derivatives M, derivedQuantities M, isState M, isConstant M, getValue M⟩
+def roles (fn : Interp) (M : RModel) : Roles :=
+  ⟨stateVars M, freeVar M, derivatives M, derivedQuantities M, isState M, isConstant M, getValue fn M⟩
 
 end Model
